@@ -288,7 +288,8 @@ func main() {
 				}
 				return em
 			}
-			faults := []string{"none", "none", "ps-nonzero", "ps-first", "sep", "h", "trailer", "topbit", "maskedbit", "salt-short", "salt-long", "salt-other"}
+			faults := []string{"none", "none", "ps-nonzero", "ps-first", "sep", "h", "trailer", "topbit", "maskedbit", "salt-short", "salt-long", "salt-other",
+				"high-octet", "high-octet", "high-octet", "high-octet", "high-octet", "high-octet", "high-octet", "high-octet"}
 			for _, fault := range faults {
 				salt := vlib.Bytes(rng, sLen)
 				switch fault {
@@ -301,6 +302,14 @@ func main() {
 					salt = append(salt, 7)
 				}
 				em := encode(salt, fault)
+				if fault == "high-octet" {
+					// a correct EM with a non-zero octet in front of it: s^e mod N = EM + 2^(8 emLen), which only fits below N when the modulus
+					// has 8 emLen + 1 bits; I2OSP(m, emLen) fails (RFC 8017 8.1.2 step 2c), so the signature is invalid
+					if kLen == emLen {
+						continue
+					}
+					em = append([]byte{1}, em...)
+				}
 				emInt := new(big.Int).SetBytes(em)
 				if emInt.Cmp(key.N) >= 0 {
 					continue
@@ -308,11 +317,12 @@ func main() {
 				s := new(big.Int).Exp(emInt, key.D, key.N) // raw RSA with the private key: s^e = EM exactly
 				sig := s.FillBytes(make([]byte, kLen))
 				// the hints for TLC, computed from the bytes of EM with the standard library only
-				H := em[emLen-hLen-1 : emLen-1]
+				tail := em[len(em)-emLen:]
+				H := tail[emLen-hLen-1 : emLen-1]
 				mask := mgf1(H, emLen-hLen-1)
 				db := make([]byte, emLen-hLen-1)
 				for i := range db {
-					db[i] = em[i] ^ mask[i]
+					db[i] = tail[i] ^ mask[i]
 				}
 				db[0] &= 0xff >> uint(8*emLen-emBits)
 				obsLen := sLen
